@@ -1,0 +1,40 @@
+//go:build verif
+// +build verif
+
+/*
+SPDX-License-Identifier: Apache-2.0
+*/
+
+package issuecredential
+
+import "github.com/hyperledger/aries-framework-go/pkg/didcomm/common/service"
+
+// VerifStates lists the state names of the Issue Credential state machine (verification hook).
+func VerifStates() []string {
+	return []string{stateNameNoop, stateNameStart, stateNameAbandoning, stateNameDone,
+		stateNameProposalReceived, stateNameOfferSent, stateNameRequestReceived, stateNameCredentialIssued,
+		stateNameProposalSent, stateNameOfferReceived, stateNameRequestSent, stateNameCredentialReceived}
+}
+
+// VerifCanTransition evaluates the real CanTransitionTo on two state names (protocol version v).
+func VerifCanTransition(from, to, v string) bool {
+	return stateFromName(from, v).CanTransitionTo(stateFromName(to, v))
+}
+
+// VerifMsgTypes lists the message types of the protocol (both versions).
+func VerifMsgTypes() []string {
+	return []string{ProposeCredentialMsgTypeV2, OfferCredentialMsgTypeV2, RequestCredentialMsgTypeV2,
+		IssueCredentialMsgTypeV2, ProblemReportMsgTypeV2, AckMsgTypeV2,
+		ProposeCredentialMsgTypeV3, OfferCredentialMsgTypeV3, RequestCredentialMsgTypeV3,
+		IssueCredentialMsgTypeV3, ProblemReportMsgTypeV3, AckMsgTypeV3}
+}
+
+// VerifMsgTarget returns the name of the state a message of the given type and direction leads to.
+func VerifMsgTarget(msgType string, outbound bool) string {
+	s, err := nextState(service.DIDCommMsgMap{"@type": msgType, "type": msgType}, outbound)
+	if err != nil {
+		return ""
+	}
+
+	return s.Name()
+}
